@@ -184,6 +184,15 @@ impl Architecture {
 
     /// Adds an argmax layer to this architecture.
     pub fn argmax(&mut self) -> Result<(), ShapeError> {
+        // argmax compares at least two components and returns a single one (the index)
+        let dim = self.current_shape.max_dim();
+        if dim < 2 {
+            return Err(ShapeError::Dim {
+                expected: 2,
+                got: dim,
+            });
+        }
+        self.current_shape = TensorShape::Flat { in_dim: 1 };
         self.operators.push((Layer::Argmax, self.current_shape));
         Ok(())
     }
